@@ -29,6 +29,8 @@ def shards(tier, seed):
     out = [("curve_%s" % c.name, dict(kind="order", cname=c.name)) for c in lib.ALL_CURVES]
     for i in range(2 if q else 8):
         out.append(("rand_orders_%d" % i, dict(kind="rand", count=25 if q else 150)))
+    for grp in ([1, 2, 3, 61, 62], [63, 64, 65], [125, 126], [127, 128, 129]) + (() if q else ([30, 31, 32, 33], [253, 254, 255, 256, 257])):
+        out.append(("order_sizes_%d" % grp[0], dict(kind="sizes", nbytes=grp)))
     out.append(("pyopt_order_NIST521p", dict(kind="order", cname="NIST521p", _pyopt=True)))
     out.append(("pyopt_rand", dict(kind="rand", count=10, _pyopt=True)))
     out.append(("child_bb_werror_rand", dict(kind="rand", count=10, _pyopt="bb+werror")))
@@ -150,6 +152,24 @@ def run(ctx, name, kind, **kw):
             # r related to s: equal, complementary, sharing its leading / trailing bytes
             for r in (s, n - s, (s >> 8) or 1, (s << 8) % n or 1, s ^ 1 or 1):
                 check(ctx, n, r, s, c.name)
+    elif kind == "sizes":
+        # orders of every byte length at which an encoding changes shape: DER bodies of 127/128 and 255/256 bytes (orders of 61..64 and
+        # 125..129 bytes), powers of 256 (the raw encoding's field width is decided by the order) - with r and the low twin of s in
+        # every combination of "one byte shorter / full length" and "top bit set / clear"
+        for nbytes in kw["nbytes"]:
+            for n in ((1 << (8 * nbytes)) - rng.randrange(1, 1000) * 2 - 1, (1 << (8 * nbytes - 1)) + rng.getrandbits(8 * nbytes - 2) | 1, 1 << (8 * (nbytes - 1)), (1 << (8 * (nbytes - 1))) + 1, (1 << (8 * nbytes - 7)) + 12345):
+                shapes = []
+                for ln in (nbytes, nbytes - 1, nbytes - 2):
+                    for top in (0x80, 0x7F, 0x01, 0xFF):
+                        if ln >= 1:
+                            v = (top << (8 * (ln - 1))) | rng.getrandbits(8 * (ln - 1)) if ln > 1 else top
+                            if 1 <= v < n:
+                                shapes.append(v)
+                for r in shapes[::3] + [1, n - 1]:
+                    for t in shapes[1::2] + [1, n // 2]:
+                        for s_ in (t, n - t):
+                            if 1 <= s_ < n and 1 <= r < n:
+                                check(ctx, n, r, s_, "size%d" % nbytes, detail=False)
     elif kind == "rand":
         for _ in range(kw["count"]):
             bits = rng.randrange(13, 601)
